@@ -131,12 +131,14 @@ structure Rep where
 structure Beh where
   handled : Bool
   sent : List Rep
+  /-- stanzas sent that are not IQ replies (new requests, …) -/
+  other : Nat := 0
   deriving DecidableEq, Repr
 
-def Beh.pass : Beh := ⟨false, []⟩
-def Beh.swallow : Beh := ⟨true, []⟩
+def Beh.pass : Beh := { handled := false, sent := [] }
+def Beh.swallow : Beh := { handled := true, sent := [] }
 /-- reply addressed with `setTo(request.from)` -/
-def Beh.reply (k : RKind) : Beh := ⟨true, [⟨k, .sender, true, false⟩]⟩
+def Beh.reply (k : RKind) : Beh := { handled := true, sent := [⟨k, .sender, true, false⟩] }
 def Beh.err (t : EType) (c : ECond) : Beh := .reply (.error t c)
 def isReq : IqType → Bool
   | .get | .set => true
@@ -207,7 +209,7 @@ def vcardBeh (s : Stanza) : Beh :=
 false; a `set` (push) is acknowledged with `setTo(from)` (repo commit 318b7cf); everything else is consumed -/
 def rosterBeh (s : Stanza) : Beh :=
   if !headIs s .query .roster then .pass
-  else if s.frm = .domain ∨ s.frm = .other then .pass
+  else if s.frm = .domain ∨ s.frm = .other ∨ s.frm = .stranger then .pass
   else if s.type = .get then .pass
   else if parsedType s.type = .set then .reply .result
   else .swallow
@@ -325,6 +327,13 @@ def ibbOpenKind (j : Job) (s : Stanza) : RKind :=
     (if headFlag2 s then .result else .error .modify .resourceConstraint)
   else .error .cancel .itemNotFound
 
+/-- byteStreamIqReceived, "handle IQ from proxy": `job->socksProxy.jid() == iq.from() && job->requestId == iq.id()`
+is also true for an incoming job (both strings empty) when the stanza has neither `from` nor `id`; a result with
+at least one `<streamhost/>` (flag) then makes the manager send a SOCKS5 offer (a new `set` request, not a reply)
+to the job's peer. -/
+def proxyMatch (j : Job) (s : Stanza) : Bool :=
+  j != .none && s.frm == .none && s.id == .absent && parsedType s.type == .result && headFlag s
+
 /-- QXmppTransferManager.cpp `handleStanza` (+ ibb*IqReceived, byteStreamIqReceived, streamInitiationIqReceived).
 Repo commit 1833c1a: a result/error carrying an IBB element and a `get` carrying bytestreams / SI return false.
 No outgoing job, no SOCKS5 job. -/
@@ -335,7 +344,8 @@ def transferBeh (l : Lsn) (j : Job) (s : Stanza) : Beh :=
   else if headIs s .data .ibb then .reply (ibbDataKind j s)
   else if headIs s .openT .ibb then .reply (ibbOpenKind j s)
   else if headIs s .query .bytestreams then
-    (if parsedType s.type = .set then .err .auth .notAcceptable else .swallow)
+    (if parsedType s.type = .set then .err .auth .notAcceptable
+     else if proxyMatch j s then { handled := true, sent := [], other := 1 } else .swallow)
   else if namedHasNs s .si .si then
     (if parsedType s.type = .set then .reply (siSetKind l s) else .swallow)
   else .pass
@@ -435,6 +445,8 @@ structure Outcome where
   by_ : Decider
   sent : List Rep
   disconnect : Bool := false
+  /-- stanzas sent that are not IQ replies -/
+  other : Nat := 0
   deriving DecidableEq, Repr
 
 /-- OutgoingIqManager::handleStanza; the outstanding request was sent to `From.other` -/
@@ -444,35 +456,36 @@ def tableConsumes (s : Stanza) : Bool :=
 structure ChainRes where
   handledBy : Option Mgr
   sent : List Rep
+  other : Nat := 0
   deriving DecidableEq, Repr
 
 /-- StanzaPipeline::process -/
 def chain : List Row → Stanza → ChainRes
-  | [], _ => ⟨none, []⟩
+  | [], _ => { handledBy := none, sent := [] }
   | r :: rs, s =>
     let b := r.run s
-    if b.handled then ⟨some r.mgr, b.sent⟩
+    if b.handled then { handledBy := some r.mgr, sent := b.sent, other := b.other }
     else
       let c := chain rs s
-      ⟨c.handledBy, b.sent ++ c.sent⟩
+      { handledBy := c.handledBy, sent := b.sent ++ c.sent, other := b.other + c.other }
 
 /-- feature-not-implemented / cancel, `setTo(from)`, `setId(id)`; sent with `reply(iq, e2eeMetadata)` by injectIq -/
 def fallbackReply (e : Entry) : Rep := ⟨.error .cancel .featureNotImplemented, .sender, true, e != .stream⟩
 
 def dispatch (exts : List Row) (s : Stanza) : Outcome :=
   -- everything that arrives on the stream (plain or encrypted) before the session is established
-  if s.entry != .inject && s.phase = .negotiating then ⟨.negotiation, [], true⟩
+  if s.entry != .inject && s.phase = .negotiating then { by_ := .negotiation, sent := [], disconnect := true }
   -- the (outer) stanza passes the request table before any extension, also before the e2ee extension
-  else if s.entry != .inject && tableConsumes s then ⟨.table, [], false⟩
+  else if s.entry != .inject && tableConsumes s then { by_ := .table, sent := [] }
   else
     let c := chain exts s
     match c.handledBy with
-    | some m => ⟨.ext m, c.sent, false⟩
+    | some m => { by_ := .ext m, sent := c.sent, other := c.other }
     | none =>
-      if isReq s.type then ⟨.fallback, c.sent ++ [fallbackReply s.entry], false⟩
-      else if isResp s.type then ⟨.fallback, c.sent, false⟩
-      else if s.dec then ⟨.fallback, c.sent, false⟩
-      else ⟨.rejected, c.sent, true⟩
+      if isReq s.type then { by_ := .fallback, sent := c.sent ++ [fallbackReply s.entry], other := c.other }
+      else if isResp s.type then { by_ := .fallback, sent := c.sent, other := c.other }
+      else if s.dec then { by_ := .fallback, sent := c.sent, other := c.other }
+      else { by_ := .rejected, sent := c.sent, disconnect := true, other := c.other }
 
 def replies (o : Outcome) : Nat := o.sent.length
 
